@@ -760,6 +760,83 @@ theorem deliverN_app_dup (fuel nx : Nat) (c : Cl) (e : Ev) (mid ts tok : Nat)
       · rw [deliverOnce_blocked retry nx c e r hr h34]
         exact quiet_refl _ c
 
+/-- the outer layer opens an event created in the client's current state (the stored exporter secrets follow the path) -/
+theorem outerOpens_current (g : GState) (e : Ev) (hs : SecretsOK g) (hp : e.path = g.path) :
+    outerOpens (ensureSecret g) e = true := by
+  have : alookup (epochOf g.path) (ensureSecret g).secrets = some g.path := by
+    cases hq : alookup (epochOf g.path) g.secrets with
+    | none => rw [ensureSecret_of_none g hq]; simp [alookup_ainsert_self]
+    | some q =>
+      rw [ensureSecret_of_some g q hq, hq]
+      obtain ⟨h1, h2⟩ := hs _ q hq
+      have : q.length = g.path.length := by simp only [epochOf] at h1; omega
+      rw [h2.eq_of_length this]
+  unfold outerOpens
+  simp only [ensureSecret_path, this, hp]
+  simp
+
+/-! ### the sender's own copy (`create_message`, then the event coming back) -/
+
+theorem send_eq (c : Cl) (n ts idn mid mts tok : Nat) (hg : c.hasGroup = true) (ha : c.g.active = true) (hp : c.g.props = []) :
+    send c n ts idn mid mts tok =
+      (setRec { c with g := updLast (ensureSecret c.g) mid mts,
+                       msgs := upsertRow { mid := mid, author := c.id, state := 0, epoch := epochOf (ensureSecret c.g).path, wrapper := n, msgTs := mts, tok := tok } c.msgs } n
+          { state := 0, epoch := some (epochOf (ensureSecret c.g).path), hasGroup := true, mid := some mid },
+       .ev { n := n, ts := ts, idnum := idn, cipher := n, sender := c.id, path := (ensureSecret c.g).path, kind := .app mid mts tok, tag := (ensureSecret c.g).recNid }) := by
+  unfold send
+  simp only [hg, ha, hp, Bool.not_true, Bool.false_eq_true, if_false, List.isEmpty_nil]
+
+/-- the client right after `create_message` -/
+def sent (c : Cl) (n mid mts tok : Nat) : Cl :=
+  setRec { c with g := updLast (ensureSecret c.g) mid mts,
+                  msgs := upsertRow { mid := mid, author := c.id, state := 0, epoch := epochOf (ensureSecret c.g).path, wrapper := n, msgTs := mts, tok := tok } c.msgs } n
+    { state := 0, epoch := some (epochOf (ensureSecret c.g).path), hasGroup := true, mid := some mid }
+
+def sentEv (c : Cl) (n ts idn mid mts tok : Nat) : Ev :=
+  { n := n, ts := ts, idnum := idn, cipher := n, sender := c.id, path := (ensureSecret c.g).path, kind := .app mid mts tok, tag := (ensureSecret c.g).recNid }
+
+theorem own_step (c : Cl) (n ts idn mid mts tok nx : Nat) (hg : c.hasGroup = true) (ha : c.g.active = true) (hsec : SecretsOK c.g) :
+    deliver (sent c n mid mts tok) (sentEv c n ts idn mid mts tok) nx = ownMessage (withSecret (sent c n mid mts tok)) (sentEv c n ts idn mid mts tok) := by
+  obtain ⟨l, hl⟩ := updLast_eq (ensureSecret c.g) mid mts
+  have hg1 : (sent c n mid mts tok).g = { ensureSecret c.g with last := l } := hl
+  have hrec : getRec (sent c n mid mts tok) n = some { state := 0, epoch := some (epochOf (ensureSecret c.g).path), hasGroup := true, mid := some mid } := by
+    simp only [sent, getRec, setRec]; exact alookup_ainsert_self _ _ _
+  have hsec1 : SecretsOK (sent c n mid mts tok).g := by rw [hg1]; exact secretsOK_ensure _ hsec
+  have hroutes : routes (sent c n mid mts tok) (sentEv c n ts idn mid mts tok) = true := by
+    have h1 : (sent c n mid mts tok).hasGroup = true := hg
+    have h2 : (sentEv c n ts idn mid mts tok).tag = (sent c n mid mts tok).g.recNid := by rw [hg1]; rfl
+    simp [routes, h1, h2]
+  have hopen : outerOpens (withSecret (sent c n mid mts tok)).g (sentEv c n ts idn mid mts tok) = true :=
+    outerOpens_current _ _ hsec1 (by rw [hg1]; rfl)
+  have hnb : NotBlocked (sent c n mid mts tok) (sentEv c n ts idn mid mts tok).n := by
+    intro r hr
+    have : (sentEv c n ts idn mid mts tok).n = n := rfl
+    rw [this, hrec] at hr; cases hr; exact ⟨by simp, by simp⟩
+  have hpath : (sentEv c n ts idn mid mts tok).path = (sent c n mid mts tok).g.path := by rw [hg1]; rfl
+  obtain ⟨retry, hd⟩ := deliverN_once 3 nx (sent c n mid mts tok) (sentEv c n ts idn mid mts tok)
+  show deliverN 3 nx _ _ = _
+  rw [hd, deliverOnce_notBlocked retry nx _ _ hnb,
+    step1_app_own retry nx _ _ mid mts tok hroutes (by rw [hg1]; simpa using ha) hopen rfl
+      (by rw [hpath]; exact Nat.le_refl _) (by rw [hpath]; intro a; exact absurd a (Nat.lt_irrefl _))
+      (by show (c.id == c.id) = true; simp)]
+
+theorem own_result (c : Cl) (n ts idn mid mts tok : Nat) :
+    ownMessage (withSecret (sent c n mid mts tok)) (sentEv c n ts idn mid mts tok) =
+      (setRec { withSecret (sent c n mid mts tok) with
+          msgs := upsertRow { mid := mid, author := c.id, state := 1, epoch := epochOf (ensureSecret c.g).path, wrapper := n, msgTs := mts, tok := tok } (sent c n mid mts tok).msgs } n
+        { state := 1, epoch := some (epochOf (ensureSecret c.g).path), hasGroup := true, mid := some mid }, .app mid) := by
+  have hrec : getRec (withSecret (sent c n mid mts tok)) (sentEv c n ts idn mid mts tok).n =
+      some { state := 0, epoch := some (epochOf (ensureSecret c.g).path), hasGroup := true, mid := some mid } := by
+    simp only [sent, sentEv, getRec, setRec]; exact alookup_ainsert_self _ _ _
+  have hf : (withSecret (sent c n mid mts tok)).msgs.find? (·.mid == mid) =
+      some { mid := mid, author := c.id, state := 0, epoch := epochOf (ensureSecret c.g).path, wrapper := n, msgTs := mts, tok := tok } :=
+    findRow_upsert_self { mid := mid, author := c.id, state := 0, epoch := epochOf (ensureSecret c.g).path, wrapper := n, msgTs := mts, tok := tok } c.msgs
+  unfold ownMessage
+  rw [hrec]
+  simp only [beq_self_eq_true, if_true, hf]
+  rfl
+
+
 /-! ## §D  one slot: application messages created in the client's current state -/
 
 /-- the conditions on the messages of one slot that mention only the EVENTS and the core `k` of the state they were
